@@ -302,8 +302,8 @@ def evaluate__substring(self: XPathFunction, context: ta.ContextType = None) -> 
         start = self.get_argument(context, index=1, required=True)
         if isinstance(start, UntypedAtomic):
             start = float(start)  # function conversion rules
-        elif isinstance(start, bool):
-            raise TypeError('an xs:boolean is not a number')
+        elif isinstance(start, bool) or not isinstance(start, (int, float, decimal.Decimal)):
+            raise TypeError('a number required, not %r' % type(start))
         if isinstance(start, float) and (math.isnan(start) or math.isinf(start)):
             return ''
     except (TypeError, ValueError):
@@ -321,8 +321,9 @@ def evaluate__substring(self: XPathFunction, context: ta.ContextType = None) -> 
             length = self.get_argument(context, index=2, required=True)
             if isinstance(length, UntypedAtomic):
                 length = float(length)  # function conversion rules
-            elif isinstance(length, bool):
-                raise TypeError('an xs:boolean is not a number')
+            elif isinstance(length, bool) or \
+                    not isinstance(length, (int, float, decimal.Decimal)):
+                raise TypeError('a number required, not %r' % type(length))
             if isinstance(length, float) and math.isnan(length) or length <= 0:
                 return ''
         except (TypeError, ValueError):
